@@ -148,10 +148,10 @@ func v3Want(c *oracle.V3Case, level int) int {
 
 // v2Index converts an accepted v2 token set into oracle indices.
 type v2Idx struct {
-	bi, ti       int
-	envPresent   bool
-	cdp, td, ri  int
-	tempPresent  bool
+	bi, ti      int
+	envPresent  bool
+	cdp, td, ri int
+	tempPresent bool
 }
 
 func v2Case(tok map[string]string) v2Idx {
